@@ -997,6 +997,83 @@ pub struct GenKnobs {
     pub big_bulk: f64,
 }
 
+
+/// "Late arrival" family: a node that is left out of direct replication (its peers' views do not
+/// name it) learns of a put and the delete that follows it only through its own anti-entropy
+/// cycles; cycles later the put (the OLDER operation) finally arrives as a direct message - delayed,
+/// re-sent, overtaken. Nothing changes on the peers afterwards, so the node's tracker has no
+/// reason to fetch their state again; closing is by the nodes' own pollers.
+pub fn gen_late_arrival_scenario(rng: &mut rand::rngs::SmallRng) -> Scenario {
+    let n = rng.gen_range(3..=4u8);
+    let nodes: Vec<NodeCfg> = (1..=n)
+        .map(|id| NodeCfg {
+            id,
+            dc: "dc0".to_string(),
+            skew_ms: if rng.gen_bool(0.3) { rng.gen_range(-20_000..20_000) } else { 0 },
+            storage_faults: vec![],
+            storage_latency_max_ms: if rng.gen_bool(0.3) { rng.gen_range(1..20) } else { 0 },
+            storage_scan_latency_max_ms: 0,
+            storage_read_faults: vec![],
+            blunt_removal: false,
+            removal_faults: vec![],
+        })
+        .collect();
+    let repair = rng.gen_range(1_000..2_500u64);
+    let cfg = ClusterCfg {
+        nodes,
+        tick_ms: *[1u64, 2, 5].choose(rng).unwrap(),
+        latency_ms: (1, *[2u64, 10, 40].choose(rng).unwrap()),
+        net_seed: rng.gen(),
+        base_ms: rng.gen_range(1_000_000_000u64..60_000_000_000),
+        repair_interval_ms: repair,
+        jitter_sites: vec![],
+        hook_seed: rng.gen(),
+        real_membership: false,
+        prefill: None,
+    };
+    let late = n; // the node nobody replicates to directly
+    let inner: Vec<u8> = (1..n).collect();
+    let mut events = Vec::new();
+    for p in &inner {
+        events.push(Ev::View { t: 40, node: *p, members: inner.clone() });
+    }
+    let ks = "ks0".to_string();
+    let op = |kind: &str, id: u64, level: &str| OpSpec { kind: kind.to_string(), ks: ks.clone(), ids: vec![id], level: level.to_string(), dup: false, empty: false };
+    // one to three ids go through put (on one inner node) then delete (on any inner node)
+    let k = rng.gen_range(1..=3u64);
+    let mut t = 600;
+    for id in 0..k {
+        let putter = *inner.choose(rng).unwrap();
+        events.push(Ev::Op { t, node: putter, spec: op("put", id, if rng.gen_bool(0.5) { "None" } else { "One" }) });
+        // sometimes the late node sees the put in time (then nothing is special about the id)
+        t += rng.gen_range(40..900);
+        events.push(Ev::Op { t, node: *inner.choose(rng).unwrap(), spec: op(if rng.gen_bool(0.7) { "del" } else { "del_many" }, id, "None") });
+        t += rng.gen_range(40..600);
+    }
+    // a few documents that stay, so the keyspace is not empty
+    for id in 10..10 + rng.gen_range(0..3u64) {
+        events.push(Ev::Op { t, node: *inner.choose(rng).unwrap(), spec: op("put", id, "None") });
+        t += rng.gen_range(20..300);
+    }
+    // the late node's own cycles fetch what there is ...
+    t += rng.gen_range(3..6) * repair + 1_500;
+    // ... and then an old message arrives: the OLDER of the two operations on each of the ids 0..k
+    // is re-sent (the list of issued operations is ordered by keyspace, id, timestamp, so the two
+    // operations of id i are entries 2i and 2i+1); the younger one is never seen again
+    for i in 0..k as usize {
+        events.push(Ev::Replay { t: t + rng.gen_range(0..400), from: *inner.choose(rng).unwrap(), nth: 2 * i, fresh: rng.gen_bool(0.5) });
+    }
+    t += 600;
+    // everybody is told about everybody again
+    let all: Vec<u8> = (1..=n).collect();
+    for p in &inner {
+        events.push(Ev::View { t, node: *p, members: all.clone() });
+    }
+    let _ = late;
+    events.sort_by_key(|e| e.t());
+    Scenario { cfg, events, closing_seed: rng.gen(), closing_parallel: false, settle_ms: 0, closing_mode: "background".to_string(), probe_direct: false, judge_departure: false, hours: false }
+}
+
 pub fn gen_cluster_scenario(rng: &mut rand::rngs::SmallRng, k: &GenKnobs) -> Scenario {
     let n = rng.gen_range(2..=k.max_nodes);
     let dcs = rng.gen_range(1..=3usize);
@@ -1767,6 +1844,9 @@ impl Check for C01 {
         }
         let mut rng = rng_from(case_seed(seed, idx));
         // scenario families, spread over all workers (worker i takes indexes i, i+16, ...)
+        if mix(0x1A7E, idx) % 13 == 0 {
+            return serde_json::to_value(gen_late_arrival_scenario(&mut rng)).unwrap();
+        }
         match mix(0xFA41, idx) % 8 {
             3 | 7 => return serde_json::to_value(gen_burst_scenario(&mut rng)).unwrap(),
             5 => return serde_json::to_value(gen_real_scenario(&mut rng)).unwrap(),
